@@ -71,7 +71,7 @@ def run_patch(patch, props, tests=True):
 def main():
     cross = "--cross" in sys.argv
     only = [a for a in sys.argv[1:] if not a.startswith("--")]
-    path = os.path.join(VERIF, "selftest", "sensitivity.json")
+    path = os.environ.get("SENS_DB") or os.path.join(VERIF, "selftest", "sensitivity.json")
     db = json.load(open(path)) if os.path.exists(path) else {}
     items = []
     for f in sorted(glob.glob(os.path.join(VERIF, "selftest", "mutants", "*.diff"))):
@@ -112,7 +112,8 @@ def main():
                 entry["repo_tests"] = res["repo_tests"]
             entry["checks"].update(res["checks"])
             json.dump(db, open(path, "w"), indent=1, sort_keys=True)
-    write_md(db)
+    if not os.environ.get("SENS_DB"):
+        write_md(db)
 
 
 def write_md(db):
